@@ -1016,6 +1016,49 @@ func g8Dispatch(r *Repo, rep *Report) {
 	if n < 2 {
 		rep.fail(Finding{Rule: "G8", Key: "G8|dispatch|vacuity", Kind: "undecided", Msg: fmt.Sprintf("only %d prefix-dispatch loops found (2 confirmed by hand: (*pkg).Add, newPackage)", n)})
 	}
+	// a prefix is matched only as a step of the ordered walk: the plugin whose prefix is tested is the range value of a loop
+	// over a plugin slice — a remembered plugin (the one of the previous call, a cache) tested first answers with a shorter
+	// prefix than the walk would have found
+	for _, b := range r.bodies() {
+		if b.Pkg.Name != "derive" && b.Pkg.Name != "main" {
+			continue
+		}
+		info := b.Pkg.TypesInfo
+		rangeVals := map[types.Object]bool{}
+		inspectOwn(b.Block, func(x ast.Node) bool {
+			if rs, ok := x.(*ast.RangeStmt); ok && rs.Value != nil {
+				if id, ok := rs.Value.(*ast.Ident); ok {
+					if t := info.TypeOf(rs.X); t != nil {
+						if _, isSlice := t.Underlying().(*types.Slice); isSlice {
+							rangeVals[info.Defs[id]] = true
+						}
+					}
+				}
+			}
+			return true
+		})
+		inspectOwn(b.Block, func(x ast.Node) bool {
+			c, ok := x.(*ast.CallExpr)
+			if !ok || !isPkgFunc(callee(info, c), "strings", "HasPrefix") || len(c.Args) != 2 {
+				return true
+			}
+			gp, ok := ast.Unparen(c.Args[1]).(*ast.CallExpr)
+			if !ok {
+				return true
+			}
+			sel, ok := ast.Unparen(gp.Fun).(*ast.SelectorExpr)
+			if !ok || sel.Sel.Name != "GetPrefix" {
+				return true
+			}
+			if id, ok := ast.Unparen(sel.X).(*ast.Ident); ok && rangeVals[info.Uses[id]] {
+				rep.pass("G8")
+				return true
+			}
+			rep.fail(Finding{Rule: "G8", Key: "G8|dispatch|" + b.Name + "|outside-walk", Where: []string{r.pos(c.Pos())},
+				Msg: b.Name + " matches a name against the prefix of " + exprStr(sel.X) + ", which is not the plugin the ordered walk over the plugin slice is at: a plugin tried out of order (remembered from the previous call, cached) wins over the plugin with the longest matching prefix"})
+			return true
+		})
+	}
 }
 
 // g8CallsReachAdd: in newPackage every discovered call is either handed to (*pkg).Add or examined by HasUndefined (and then
